@@ -436,27 +436,43 @@ def oracle_wlcc_masks(rng, n, R):
 
 def oracle_mi(rng, n, R):
     for it in range(n):
-        D, N, C, sp = rshape(rng)
-        shape = [N, 1] + [s + 3 for s in sp]
+        D, N, _, sp = rshape(rng)
+        C = [1, 2, 3][it % 3]            # samples of all channels are pooled
+        shape = [N, C] + [s + 3 for s in sp]
         x, y = rnd(rng, shape, 0, 1), rnd(rng, shape, 0, 1)
         bins = rng.choice([8, 16, 32])
-        base = {"x": spec(x), "y": spec(y), "bins": bins}
+        base = {"x": spec(x), "y": spec(y), "bins": bins, "C": C}
         R.tick("mi")
         for fname in ("mi_loss", "nmi_loss"):
             fn = getattr(L, fname)
-            a = R.guard(f"C16:{fname}:raises", base, lambda: fn(x, y, num_bins=bins))
-            b = R.guard(f"C16:{fname}:raises", base, lambda: fn(y, x, num_bins=bins))
+            kr = f"C16:{fname}:raises" if C == 1 else f"C16:{fname}:multichannel-raises"
+            a = R.guard(kr, base, lambda: fn(x, y, num_bins=bins))
+            b = R.guard(kr, base, lambda: fn(y, x, num_bins=bins))
             if a is None or b is None:
                 continue
             if not close(a, b, 1e-5):
-                R.fail(f"C16:{fname}:asymmetric", f"{fname}(x,y) = {float(a):.6g} != {fname}(y,x) = {float(b):.6g}", **base)
+                R.fail(f"C16:{fname}:asymmetric", f"{fname}(x,y) = {float(a):.6g} != {fname}(y,x) = {float(b):.6g} (C = {C})", **base)
             s = fn(x, x, num_bins=bins)
             if not float(s) <= float(a) + 1e-6:
-                R.fail(f"C16:{fname}:identical-not-minimal", f"{fname}(x,x) = {float(s):.5g} > {fname}(x,y) = {float(a):.5g}", **base)
+                R.fail(f"C16:{fname}:identical-not-minimal", f"{fname}(x,x) = {float(s):.5g} > {fname}(x,y) = {float(a):.5g} (C = {C})", **base)
             if fname == "nmi_loss" and not (-1e-6 <= float(a) <= 2 + 1e-6):
                 R.fail("C16:nmi_loss:out-of-range", f"nmi_loss = {float(a):.5g} outside [0, 2]", **base)
-            m = rbin(rng, [rng.choice([1, N]), 1] + shape[2:], 0.7)
-            R.guard(f"C16:{fname}:mask-raises", base, lambda: fn(x, y, mask=m, num_bins=bins))
+            if C > 1:
+                # pooling: a multi-channel image is the one-channel image holding the same samples
+                xf, yf = x.reshape(N, 1, -1, shape[-1]), y.reshape(N, 1, -1, shape[-1])
+                c1 = R.guard(kr, base, lambda: fn(xf, yf, num_bins=bins))
+                if c1 is not None and not close(a, c1, 1e-6):
+                    R.fail(f"C16:{fname}:multichannel-not-pooled", f"{fname} of a {C}-channel image {float(a):.6g} differs from the pooled one-channel image {float(c1):.6g}", **base)
+            for mN in (1, N):
+                m = rbin(rng, [mN, 1] + shape[2:], 0.7)
+                am = R.guard(f"C16:{fname}:mask-raises", {"mask_shape": list(m.shape), **base}, lambda: fn(x, y, mask=m, num_bins=bins))
+                bm = R.guard(f"C16:{fname}:mask-raises", {"mask_shape": list(m.shape), **base}, lambda: fn(y, x, mask=m, num_bins=bins))
+                if am is not None and bm is not None:
+                    if not close(am, bm, 1e-5):
+                        R.fail(f"C16:{fname}:mask-asymmetric", f"masked {fname} is not symmetric (C = {C})", **base)
+                    ones = fn(x, y, mask=torch.ones_like(m), num_bins=bins)
+                    if not close(ones, a, 1e-6):
+                        R.fail(f"C16:{fname}:mask-of-ones", f"an all-ones mask changes {fname} (C = {C})", **base)
 
 
 def oracle_modules(rng, n, R):
